@@ -331,6 +331,10 @@ type Info struct {
 // ChannelCounts counts the number of messages on each channel in an Info.
 func (i *Info) ChannelCounts() map[string]uint64 {
 	counts := make(map[string]uint64)
+	if i.Statistics == nil {
+		// a file written without a statistics record
+		return counts
+	}
 	for k, v := range i.Statistics.ChannelMessageCounts {
 		channel := i.Channels[k]
 		if channel == nil {
